@@ -197,7 +197,13 @@ func genVersion(t *rapid.T) (string, string, bool) {
 	n := func(label string) int {
 		return rapid.OneOf(rapid.IntRange(0, 12), rapid.SampledFrom([]int{99, 1000, 65536, 2147483647})).Draw(t, label)
 	}
-	switch pickU(t, "vclass", 8) {
+	switch pickU(t, "vclass", 9) {
+	case 8: // a compatible version, a NUL, then garbage in the padding
+		base := rapid.SampledFrom([]string{"1.0.0", "0.5.8", "0.5.9", "0.5.10", "0.5.11", "0.5.12"}).Draw(t, "base")
+		g := rapid.SliceOfN(rapid.SampledFrom([]byte("0123456789.-+rc\x01\xff")), 1, 16-len(base)-1).Draw(t, "garbage")
+		gap := rapid.IntRange(1, 16-len(base)-len(g)).Draw(t, "nuls")
+		v := base + strings.Repeat("\x00", gap) + string(g)
+		return v, "compatible-NUL-garbage", false
 	case 0: // a compatible version: positive control
 		return "", "compatible", true
 	case 1: // released 0.5.x outside the set, and successors
